@@ -735,6 +735,14 @@ func (env *Env) evalCall(x *ast.CallExpr) Val {
 			mt := m.T.Underlying().(*types.Map)
 			k := env.typed(env.eval(x.Args[1]), mt.Key())
 			return boolVal(fc.mapHas(env.st, m, k))
+		case "sprop":
+			// sprop(name, s): an uninterpreted property of the string s (a predicate the contracts of a trusted library
+			// give meaning to, e.g. "lexically clean" for package path); equal strings have equal properties
+			an := x.Args[0].(*ast.Ident).Name
+			v := env.typed(env.eval(x.Args[1]), types.Typ[types.String])
+			fname := qsym("sprop!" + an)
+			fc.declareFunOnce(fname, "("+SortStr+") Bool")
+			return boolVal(app(fname, v.L[0]))
 		case "samearray":
 			a, b := env.eval(x.Args[0]), env.eval(x.Args[1])
 			return boolVal(eq(a.L[0], b.L[0]))
